@@ -211,6 +211,23 @@ def subset_case(seed):
                         refv = alt
                     if not _same(np, val, refv):
                         return {"what": "variable %s/%s differs from the full load (select=%r)" % (g, name, sel), "input": desc}
+            # everything requested is returned: a group asked for in full holds every variable of the full load, a
+            # variable list holds each listed variable (possibly as a component of a merged vector)
+            full_groups = [g for g in ref if ref[g] and ((isinstance(sel, list) and g in sel) or (isinstance(sel, dict) and g not in sel))]
+            for g in full_groups:
+                for name in ref[g]:
+                    if name not in got.get(g, {}):
+                        return {"what": "variable %s/%s of the full load is missing although group %s was requested in full (select=%r)"
+                                        % (g, name, g, sel), "input": desc}
+            if isinstance(sel, dict):
+                for g, spec in sel.items():
+                    if isinstance(spec, list) and ref.get(g):
+                        for want in spec:
+                            have = got.get(g, {})
+                            comp = want[:-2] + "." + want[-1] if want[-2:] in ("_x", "_y", "_z") else None
+                            if want in ref[g] or (comp and comp in ref[g]):
+                                if want not in have and not (comp and comp in have):
+                                    return {"what": "requested variable %s/%s is missing (select=%r)" % (g, want, sel), "input": desc}
             # nothing excluded is returned
             if isinstance(sel, dict):
                 for g, spec in sel.items():
@@ -383,6 +400,47 @@ def level_case(seed):
         shutil.rmtree(tmp, ignore_errors=True)
 
 
+def level_position_case(seed):
+    """a level cap together with a positional box on a finely decomposed output (the CPU pre-selection works on the
+    levelmax key lattice whatever the cap): rows == truncated tree filtered by the box"""
+    import contextlib
+    import io
+
+    import numpy as np
+    import osyris
+
+    rw = _writer()
+    rng = random.Random(seed)
+    ndim, ncpu, levelmin, levelmax = 3, 8, 3, 4
+    hydro_vars = ["density", "pressure"]
+    tmp = tempfile.mkdtemp(prefix="c12p_")
+    try:
+        octs = rw.build_tree(ndim, levelmin, levelmax, rng=rng, ncpu=ncpu, variables=hydro_vars, refine_fraction=0.4)
+        rw.write_output(tmp, 1, octs, ndim=ndim, ncpu=ncpu, levelmin=levelmin, levelmax=levelmax, hydro_vars=hydro_vars,
+                        ghosts=rw.random_ghosts(octs, ncpu, rng))
+        cap = 3
+        lo = rng.choice([0.0, 0.5, 0.25])
+        hi = lo + rng.choice([0.25, 0.5])
+        box = {"position_" + c: (lambda x, lo=lo, hi=hi: (x >= osyris.Array(lo, unit="cm")) & (x <= osyris.Array(hi, unit="cm"))) for c in "xyz"}
+        sel = dict(box, level=lambda l: l <= cap)
+        with contextlib.redirect_stdout(io.StringIO()):
+            ds = osyris.RamsesDataset(1, path=tmp).load(select={"mesh": sel})
+        exp = rw.expected_mesh(octs, ndim=ndim, ncpu=ncpu, levelmax=levelmax, hydro_vars=hydro_vars, lmax=cap)
+        P = np.stack([np.asarray(exp["position_" + c], float) for c in "xyz"], axis=1)
+        desc = {"seed": seed, "cap": cap, "box": [lo, hi], "ncpu": ncpu}
+        keep = np.all((P >= lo) & (P <= hi), axis=1)
+        n = int(keep.sum())
+        mesh = ds["mesh"] if "mesh" in ds.keys() else None
+        got_n = 0 if (mesh is None or len(mesh.keys()) == 0) else mesh.shape[0]
+        if got_n != n:
+            return {"what": "level <= %d inside the box [%s, %s]^3: %d rows, the truncated tree has %d there" % (cap, lo, hi, got_n, n), "input": desc}
+        if n and not np.allclose(np.sort(np.asarray(mesh["density"].values, float)), np.sort(np.asarray(exp["density"], float)[keep]), rtol=1e-12):
+            return {"what": "level <= %d inside the box: densities differ from the truncated tree" % cap, "input": desc}
+        return None
+    finally:
+        shutil.rmtree(tmp, ignore_errors=True)
+
+
 def replay_level(case, model, rec):
     for s in range(8):
         try:
@@ -407,7 +465,17 @@ def sweep_c12(tier, seed):
         if r:
             viol.append({"name": "C12.native.level_load", "input": r["input"], "observed": r["what"]})
             break
-    return {"status": "violation" if viol else "ok", "cases": n * 3, "distinct": n * 3, "violations": viol,
+    for k in range(4 if tier == "quick" else 40):
+        try:
+            r = level_position_case(seed * 3001 + k)
+        except Exception as e:
+            import traceback
+
+            r = {"what": "exception %r %s" % (e, traceback.format_exc(limit=3)), "input": {"seed": seed * 3001 + k}}
+        if r:
+            viol.append({"name": "C12.native.level_and_position", "input": r["input"], "observed": r["what"]})
+            break
+    return {"status": "violation" if viol else "ok", "cases": n * 3 + 4, "distinct": n * 3 + 4, "violations": viol,
             "samples": [{"seed": seed * 2003}], "kind": "bounded-native"}
 
 
